@@ -24,7 +24,7 @@ import (
 func init() {
 	core.Register(&core.Property{
 		ID:   "C01",
-		Rule: "streams: (1) every binary/unary operator x boundary-pool operand pairs, every function-table name x arity 0..4 x receiver pool x argument pool; (2) grammar-directed expression trees on generated resources of R4 types with option sets; (2m) navigation over Bundles / contained lists mixing resource types that share a backbone element name, and un-rooted paths evaluated on resources of different types in turn; (2e) every element (choice wrappers, code wrappers, value-less primitives, partially populated complex types included) of generated resources of every type x 36 operations that convert, compare or combine it; (3) byte-mutated sources; (4) patch operation x path x value x index. distinct_nontrivial counts distinct (stream, operator-or-function, operand-class tuple, outcome-kind) keys whose outcome was a value or an error produced by the library (not a compile rejection of the harness' own malformed text)",
+		Rule: "streams: (1) every binary/unary operator x boundary-pool operand pairs, every function-table name x arity 0..4 x receiver pool x argument pool; (2) grammar-directed expression trees on generated resources of R4 types with option sets; (2m) navigation over Bundles / contained lists mixing resource types that share a backbone element name, and un-rooted paths evaluated on resources of different types in turn; (2e) every element (choice wrappers, code wrappers, value-less primitives, partially populated complex types included) of generated resources of every type x 36 operations that convert, compare or combine it; (3) byte-mutated sources; (4) patch operation x path x value x index. a history stream (orderly failing inputs and custom functions with failing argument binding evaluated repeatedly in one process), mixed containers also under Permissive, wrappers as variables; distinct_nontrivial counts distinct (stream, operator-or-function, operand-class tuple, outcome-kind) keys whose outcome was a value or an error produced by the library (not a compile rejection of the harness' own malformed text)",
 		Assumptions: []string{
 			"domain bound: source <= 2 KiB, nesting depth <= 64, resources <= ~400 nodes (ANTLR prediction cost is super-linear beyond that)",
 			"nil entries inside the input slice, nil option values and typed-nil elements are caller errors (outside the domain)",
